@@ -331,3 +331,81 @@ def wfsa_states(desc):
             if q not in out:
                 out.append(q)
     return out
+
+
+# ----------------------------------------------------------------------------- transducers
+FST_SHAPES = ["plain", "eps_out", "eps_in", "eps_eps", "cyclic", "multi_init_final", "dead_states", "tiny"]
+
+
+def gen_fst(rng, shape=None, nstates=None, in_syms=None, out_syms=None):
+    """Returns (desc, shape) with arcs [i, a, b, j, w]; every arc with an ε on some tape has a small
+    weight and the per-state sum of such arcs is ≤ 1/2 (all ε-paths converge geometrically)."""
+    shape = shape or rng.choice(FST_SHAPES)
+    n = nstates or (1 if shape == "tiny" else rng.choice([1, 2, 2, 3]))
+    A = in_syms or TERMS[:2]
+    B = out_syms or ["x", "y"]
+    W = SMALL + [Fraction(1), Fraction(3, 4)]
+    states = list(range(n))
+    arcs = []
+    for _ in range(rng.randint(n, 2 * n + 2)):
+        i, j = rng.randrange(n), rng.randrange(n)
+        a, b = rng.choice(A), rng.choice(B)
+        if shape == "eps_out" and rng.random() < 0.4:
+            b = ""
+        if shape == "eps_in" and rng.random() < 0.4:
+            a = ""
+        if shape in ("eps_eps", "cyclic") and rng.random() < 0.3:
+            a, b = rng.choice([("", ""), ("", b), (a, "")])
+        arcs.append([states[i], a, b, states[j], rng.choice(W if a and b else SMALL)])
+    if shape == "cyclic":
+        i = rng.randrange(n)
+        arcs.append([states[i], "", "", states[i], rng.choice(SMALL)])
+        arcs.append([states[i], "", rng.choice(B), states[(i + 1) % n], rng.choice(SMALL)])
+        arcs.append([states[(i + 1) % n], rng.choice(A), "", states[i], rng.choice(SMALL)])
+    start = [[states[0], rng.choice(W)]]
+    stop = [[states[-1], rng.choice(W)]]
+    if shape == "multi_init_final":
+        for q in rng.sample(states, rng.randint(1, n)):
+            start.append([q, rng.choice(W)])
+        for q in rng.sample(states, rng.randint(1, n)):
+            stop.append([q, rng.choice(W)])
+    if shape == "dead_states":
+        arcs.append([states[0], rng.choice(A), rng.choice(B), "dead", rng.choice(W)])
+        arcs.append(["unreach", rng.choice(A), rng.choice(B), states[-1], rng.choice(W)])
+    for _ in range(10):
+        rows = {}
+        for i, a, b, j, w in arcs:
+            if a == "" or b == "":
+                rows[i] = rows.get(i, 0) + w
+        bad = {i for i, v in rows.items() if v > Fraction(1, 2)}
+        if not bad:
+            break
+        for e in arcs:
+            if (e[1] == "" or e[2] == "") and e[0] in bad:
+                e[4] = e[4] / 2
+    desc = {"start": [[q, frac_str(w)] for q, w in start], "stop": [[q, frac_str(w)] for q, w in stop],
+            "arcs": [[i, a, b, j, frac_str(w)] for i, a, b, j, w in arcs], "in_syms": A, "out_syms": B}
+    return desc, shape
+
+
+def fst_to_bool(desc):
+    return {**desc, "start": [[q, True] for q, _ in desc["start"]], "stop": [[q, True] for q, _ in desc["stop"]],
+            "arcs": [[i, a, b, j, True] for i, a, b, j, _ in desc["arcs"]]}
+
+
+def fst_states(desc):
+    out = []
+    for q, _ in desc["start"] + desc["stop"]:
+        if q not in out:
+            out.append(q)
+    for e in desc["arcs"]:
+        for q in (e[0], e[3]):
+            if q not in out:
+                out.append(q)
+    return out
+
+
+def fst_eps_acyclic(desc):
+    """no cycle of ε:ε arcs"""
+    d = {"arcs": [[e[0], "", e[3], e[4]] for e in desc["arcs"] if e[1] == "" and e[2] == ""]}
+    return eps_acyclic(d)
